@@ -25,10 +25,13 @@ Prims2 == { Par(V2(0, 0), V2(8, 0), V2(0, 8)),                       \* axis-ali
             Tri(V2(-10, -4), V2(6, -8), V2(2, 10)),                  \* slanted
             Tri(V2(-6, 6), V2(6, 6), V2(-6, -6)),                    \* clockwise vertices
             Tri(<<A0(-4), A1(-8, "k")>>, <<A0(8), A1(-8, "k")>>, <<A0(-4), A1(0, "k")>>),
-            Tri(V2(-4, 0), V2(4, 0), <<A0(0), A2(-6, "k", 2)>>),   \* apex (0, -3/2 + 2k): the vertex orientation flips between k = 0 and k >= 1
+            Tri(V2(-4, 0), V2(4, 0), <<A0(0), A2(-6, "k", 2)>>),
+            Par(V2(-4, 0), V2(4, 0), <<A0(-3), A2(-6, "k", 2)>>),  \* second corner (-3/4, -3/2 + 2k): orientation flips between k = 0 and k >= 1   \* apex (0, -3/2 + 2k): the vertex orientation flips between k = 0 and k >= 1
             Cir(V2(0, 0), A0(6)),
             Cir(V2(4, -2), A0(4)),
             Cir(<<A1(-4, "t"), A0(0)>>, A1(2, "k")) }                 \* centre moves with t, radius 1/2 + k
+\* an interval whose length differs by four orders of magnitude between parameter rows (only in the membership / sampling universe)
+IntBig == [k |-> "interval", v |-> "u", lo |-> A0(0), hi |-> A2(4, "t", 10000)]
 Ints == { [k |-> "interval", v |-> "u", lo |-> A0(-4), hi |-> A0(6)],
           [k |-> "interval", v |-> "u", lo |-> A1(-4, "t"), hi |-> A1(2, "t")] }
 Sph == [k |-> "sphere", v |-> "y", c |-> <<A0(0), A0(2), A0(-2)>>, r |-> A0(6)]
@@ -59,7 +62,7 @@ Depth1 == {Un(a, b) : a \in Prims2, b \in Prims2} \cup {Cu(a, b) : a \in Prims2,
                                    Cu(Cir(<<A2(-6, "u", 2), A0(0)>>, A0(4)), Par(V2(-16, 0), V2(16, 0), V2(-16, 8)))}, i \in Ints}
           \cup {Pr(i, Tr(a, t)) : i \in Ints, a \in {Cir(V2(0, 0), A0(6)), Par(V2(0, 0), V2(8, 0), V2(0, 8))}, t \in TransVecs}    \* transformed second factor
           \cup {Pr(i, Ro(a, "p345", p)) : i \in Ints, a \in {Tri(V2(0, 0), V2(10, 0), V2(0, 8))}, p \in RotPts}
-Exh == Prims2 \cup Ints \cup {Sph, SphT} \cup {x \in Depth1 : x.k \notin {"union", "cut", "and"} \/ x.l # x.r}
+Exh == Prims2 \cup Ints \cup {IntBig} \cup {Sph, SphT} \cup {x \in Depth1 : x.k \notin {"union", "cut", "and"} \/ x.l # x.r}
 
 \* ---- random growth
 R(S) == RandomElement(S)
